@@ -52,6 +52,10 @@ type evCase struct {
 	Base int64 `json:"base_abs_ms,omitempty"`
 	// K2: GROUP BY k, k2 (rows carry evK2 keys)
 	K2 bool `json:"two_key_columns,omitempty"`
+	// complete, when set, says whether every result the oracle is going to demand has been delivered.  The
+	// delivery COUNT can reach the expected number through results that are merely allowed (intervals holding
+	// only late-kept rows), so the count alone does not tell that the engine is done.
+	complete func([]eng.Delivery) bool
 }
 
 func (c *evCase) base() int64 {
@@ -287,9 +291,41 @@ func (c *evCase) run(expectDels int) evRun {
 		out.Quiescent = rec.Quiesce(3, 8*time.Millisecond, 5*time.Second)
 	} else {
 		out.Quiescent = rec.Quiesce(3, 260*time.Millisecond, 60*time.Second)
+		// confirmation: the statistics cannot show a trigger goroutine that has not yet looked at the last
+		// watermark; a delivery arriving during a further 300 ms restarts the wait
+		for k := 0; k < 5 && out.Quiescent; k++ {
+			n0 := rec.NDeliveries()
+			time.Sleep(300 * time.Millisecond)
+			if rec.NDeliveries() == n0 {
+				break
+			}
+			out.Quiescent = rec.Quiesce(3, 260*time.Millisecond, 60*time.Second)
+		}
 		if out.Quiescent && expectDels >= 0 && rec.NDeliveries() < expectDels {
 			// something is missing: give a loaded machine a lot more time before calling it lost
 			rec.WaitDeliveries(expectDels, 4*time.Second)
+		}
+	}
+	if c.complete != nil && !c.complete(rec.Deliveries()) {
+		// Something the oracle demands is still absent.  It is only called lost after the engine has stayed
+		// silent for four consecutive rounds of 3 polls 260 ms apart (> 3 s, many watermark ticks) - a loaded
+		// machine can hold the trigger goroutine up far longer than the fast path above waits.
+		quiet := 0
+		for round := 0; quiet < 4 && round < 40; round++ {
+			n0 := rec.NDeliveries()
+			ok := rec.Quiesce(3, 260*time.Millisecond, 10*time.Second)
+			if c.complete(rec.Deliveries()) {
+				break
+			}
+			if ok && rec.NDeliveries() == n0 {
+				quiet++
+			} else {
+				quiet = 0
+			}
+		}
+		out.Quiescent = quiet >= 4 || c.complete(rec.Deliveries())
+		if evCtx != nil {
+			evCtx.Count("observed.cases_that_needed_the_long_wait", 1)
 		}
 	}
 	out.Dels = rec.Deliveries()
